@@ -222,6 +222,11 @@ func (fr *Frame) exec(st *State, ins ssa.Instruction) {
 		r := u.def("chan", SRef, "(obj "+a+")")
 		u.assume("(= (rootid " + r + ") " + a + ")")
 		u.set(st, "alloc", "(+ "+a+" 1)")
+		if _, ok := u.P.CS.GhostMaps["chancap"]; ok {
+			// ghost: the buffer size the channel was made with
+			u.setCompSort("GM_chancap", "(Array Ref Int)")
+			u.set(st, "GM_chancap", store(u.get(st, "GM_chancap"), r, fr.val(x.Size).T))
+		}
 		fr.vals[x] = Val{T: r, Sort: SRef, Typ: x.Type()}
 	case *ssa.MakeClosure:
 		a := u.get(st, "alloc")
@@ -245,6 +250,9 @@ func (fr *Frame) exec(st *State, ins ssa.Instruction) {
 			return
 		}
 		fr.safe(st, "nilmap", x.Pos(), "assignment to entry in nil map", not(eq(m.T, "null")))
+		if g, owner, ok := fr.guardedMap(x.Map); ok {
+			fr.guardedAccess(st, g, owner, true, x.Pos(), "MapSet", []Val{k, v})
+		}
 		fr.frameMap(st, m.T, x.Pos())
 		MD, MV := u.get(st, "MD_"+vs), u.get(st, "MV_"+vs)
 		u.set(st, "MD_"+vs, store(MD, m.T, store(sel(MD, m.T), k.T, "true")))
@@ -274,7 +282,7 @@ func (fr *Frame) exec(st *State, ins ssa.Instruction) {
 	case *ssa.Send:
 		ch, v := fr.val(x.Chan), fr.val(x.X)
 		u.emitEvent(st, "ChanSend", []Val{ch})
-		u.emitEvent(st, "ChanSend_"+smtIdent(v.Sort), []Val{ch, v})
+		u.emitEvent(st, "ChanSend_"+chanElemName(u, x.X.Type()), []Val{ch, v})
 	case *ssa.Select:
 		fr.selectOp(st, x)
 	default:
@@ -617,6 +625,9 @@ func (fr *Frame) lookup(st *State, x *ssa.Lookup) {
 	has := u.def("has", SBool, and(not(eq(m.T, "null")), sel(sel(u.get(st, "MD_"+vs), m.T), k.T)))
 	v := u.def("mv", vs, ite(has, sel(sel(u.get(st, "MV_"+vs), m.T), k.T), u.sorts.zero(mt.Elem())))
 	u.typeFacts(st, v, mt.Elem())
+	if g, owner, ok := fr.guardedMap(x.X); ok {
+		fr.guardedAccess(st, g, owner, false, x.Pos(), "MapGet", []Val{k, {T: has, Sort: SBool, Typ: types.Typ[types.Bool]}, {T: v, Sort: vs, Typ: mt.Elem()}})
+	}
 	if x.CommaOk {
 		fr.vals[x] = Val{Sort: "Tuple", Typ: x.Type(), Tuple: []Val{{T: v, Sort: vs, Typ: mt.Elem()}, {T: has, Sort: SBool, Typ: types.Typ[types.Bool]}}}
 	} else {
@@ -746,4 +757,12 @@ func (fr *Frame) frameMap(st *State, m Term, pos token.Pos) {
 		alts = append(alts, eq(m, l.addr))
 	}
 	u.oblige(fr.oblFn, "frame.map", "", fr.pos(pos), "map update inside assigns clause", st.guard, or(alts...))
+}
+
+// chanElemName names the typed channel-send event: the type name for a named element type, its sort otherwise.
+func chanElemName(u *Unit, t types.Type) string {
+	if n, ok := t.(*types.Named); ok {
+		return n.Obj().Name()
+	}
+	return smtIdent(u.sorts.sortOf(t))
 }
